@@ -657,10 +657,12 @@ pub mod operator {
         output: TypedBufferRef,
     ) -> Result<BoxedOperator<'a>, QueryError> {
         if input.is_null() {
+            // The filter is nullable: a row passes only if its byte is non-zero AND present. The data byte under a
+            // NULL slot is whatever the comparison produced for the stale stored value and must not be counted.
             Ok(null_vec_like(
                 filter.any(),
                 output.any(),
-                LengthSource::NonZeroU8ElementCount,
+                LengthSource::NonNullElementCount,
             ))
         } else if input.is_nullable() {
             reify_types! {
